@@ -21,11 +21,11 @@ ASSUMPTIONS = ["float-typed leaves are generated representable in the target wid
                "logical types: unknown logicalType annotations only (the logical-type clause of the statement is C16's)",
                "a field default is data like any other: an absent field is accepted when its default conforms (bytes/fixed defaults given as "
                "JSON strings do not: DESIGN O1, validate answers False and the writer raises -- consistent, observation only)"]
-PARTIAL = ["C10_writer_accepts (validate accepts => the writer encodes) is refuted at full strength (C10_writer_accepts_refuted: a '-type' entry naming no "
-           "record branch while a map branch fits, a foreign exception during the branch search, the strict writer, float overflow); proved: "
+PARTIAL = ["C10_writer_accepts (validate accepts => the writer encodes) is refuted at full strength (C10_writer_accepts_refuted: a foreign exception "
+           "during the branch search, the strict writer, float overflow); proved: "
            "C10_writer_accepts_partial for the default writer under the side condition wdom (floats convert, absent default-less fields accept null "
            "the way _accepts_null tests it -- implied by validate for parse_schema's schemas: C10_absent_field_agrees --, the validator answers on "
-           "every branch searched, a '-type' entry names every branch the datum validates against)",
+           "every branch searched)",
            "elab_typed's float side condition floats_ok (range of d2s/z2d outputs, rests on SpecFloat.binary_round) is evaluated in-model on every "
            "accepted case, not proved",
            "C10_gate is stated for the model's Writer.write (validation precedes encoding); that no byte reaches the stream is checked on the "
@@ -301,7 +301,7 @@ WITNESS_SCHEMAS = [
     # a validating record branch followed by a branch on which validation raises
     ([{"type": "record", "name": "A1", "fields": [{"name": "x", "type": {"type": "array", "items": "int"}}]},
       {"type": "map", "values": ["int", "string"]}], {"x": (1, 2, 3)}, "tuple-arity"),
-    # a '-type' entry naming no record branch while a map branch fits: validate accepts (as a map), the writer looks for record B
+    # regression (9496e1e + bf75db4): a '-type' entry naming no record branch while a map branch fits -- rejected by both now
     ([{"type": "record", "name": "A2", "fields": [{"name": "x", "type": "int"}]}, {"type": "map", "values": ["int", "string"]}],
      {"x": 1, "-type": "B"}, "wrong-hint"),
     # O1 (observation): omitted bytes field whose default is a JSON string
@@ -362,6 +362,19 @@ def run(ctx):
         if orig is not None and (orig is not c.datum) and U.conforms_x(orig, c.parsed, c.named, not c.wopts.get("disable_tuple_notation")):
             good = orig
         check_writer(ctx, c, m, parts, stats, good)
+    # fixed validate_many witness: a datum rejected because its '-type' entry excludes every union branch (the ValidationError
+    # raised by the union carries no error entries)
+    import fastavro
+    wc = []
+    for d in ({"x": 1}, {"x": 1, "-type": "B"}):
+        c = CC.Case()
+        c.raw = [{"type": "record", "name": "AM", "fields": [{"name": "x", "type": "int"}]}, "null"]
+        c.named = {}
+        c.parsed = fastavro.parse_schema(json.loads(json.dumps(c.raw)), c.named) if not wc else wc[0].parsed
+        c.named = c.named if not wc else wc[0].named
+        c.datum, c.suffix, c.wopts, c.ropts, c.use_raw, c.tag = d, b"", {}, {}, False, "witness#wrong-hint"
+        wc.append(c)
+    check_many(ctx, wc, [impl_text(c) for c in wc])
     # ---- validate_many over the data of one schema
     i = 0
     while i < len(cases):
